@@ -20,6 +20,11 @@ mod mkzip;
 pub use util::*;
 
 fn dispatch(op: &str, args: &[Arg]) -> String {
+    // aes_entry x<data> idx x<pw> x<dk> bufsize: the derived key is for the model only
+    if op == "aes_entry" {
+        let a = vec![args[0].clone(), args[1].clone(), Arg::N(1), args[2].clone(), args[4].clone()];
+        return ops_reader::dispatch("entry", &a).unwrap();
+    }
     if let Some(r) = ops_dos::dispatch(op, args) {
         return r;
     }
